@@ -24,7 +24,8 @@ from koala.flux_finder import fluxes_from_ujk, n_to_ujk_flipped
 
 DRIVERS = ("c14",)
 MODEL_TARGETS = ["Model/Lattice.vo", "Model/Flux.vo", "Model/SpanTree.vo"]
-TARGETS = ["Proofs/FluxFacts.vo", "Proofs/SpanTreeFacts.vo", "Proofs/SpanTreeComplete.vo", "Proofs/SpanTreeLattice.vo"]
+TARGETS = ["Proofs/FluxFacts.vo", "Proofs/SpanTreeFacts.vo", "Proofs/SpanTreeComplete.vo", "Proofs/SpanTreeLattice.vo",
+           "Proofs/SpanTreeAcyclic.vo", "Proofs/SectorCount.vo"]
 LEVEL = "proof"
 TRUST = [
     "hand-written Gallina model coq/Model/SpanTree.v of graph_utils.plaquette_spanning_tree (numpy membership tests, np.unique(return_counts), np.append) and flux_finder.n_to_ujk_flipped (format(n,'0kb'), fancy assignment on a copy): modelled, not verified; tied to the code by the correspondence run",
